@@ -148,6 +148,176 @@ log_pixels (const img_t *d)
     fputc (']', vt_out);
 }
 
+/* G lines: a gradient (linear / radial / conical, any repeat mode, any stop list) used as source (role 0) or as mask
+ * (role 1), presented directly (variant 0) and rendered with SRC into a cleared a8r8g8b8 image that is then used as a plain,
+ * non-repeating image covering the request (variant 1: an alpha format is never flagged opaque).  The Req event carries
+ * the alpha of every gradient sample of the request ("galpha", read from that rendering): the specification decides from them
+ * whether the gradient is truly opaque for the request.
+ *
+ * G pair variant cmp op role gkind grep g0..g5 nstops p0 a0 p1 a1 p2 a2 p3 a3 other dfmt dw dh gx gy dx dy w h seed
+ *   gkind 0 linear (g0,g1)-(g2,g3); 1 radial (g0,g1,r g2)-(g3,g4,r g5); 2 conical centre (g0,g1) angle g2   (16.16)
+ *   other: role 0: mask kind (0, 1, 2, 4, 5 as in P lines); role 1: source kind (0 opaque x8r8g8b8 image, 1 solid,
+ *          4 translucent a8r8g8b8 image, 10 opaque a8r8g8b8 image)
+ */
+static int
+do_grad (FILE *in)
+{
+    long long f[40];
+    int i, k = 0, x, y;
+    int pair, variant, cmp, op, role, gkind, grep, nstops, other, dw, dh, gx, gy, dx, dy, w, h;
+    pixman_fixed_t g[6];
+    pixman_gradient_stop_t stops[4];
+    pixman_format_code_t dfmt, sfmt = PIXMAN_a8r8g8b8;
+    uint64_t seed;
+    vrng_t rng;
+    img_t s, m, d, t;
+    pixman_image_t *grad, *src = NULL, *mask = NULL, *pres;
+    int skind = 8, mkind = 8, sw = 0, sh = 0, sx = 0, sy = 0, mx = 0, my = 0;
+    int *galpha, ng = 0;
+    void (*saved) (const char *, const void *);
+
+    for (i = 0; i < 33; i++)
+	if (fscanf (in, "%lld", &f[i]) != 1) return 3;
+    pair = (int)f[k++]; variant = (int)f[k++]; cmp = (int)f[k++]; op = (int)f[k++];
+    role = (int)f[k++]; gkind = (int)f[k++]; grep = (int)f[k++];
+    for (i = 0; i < 6; i++) g[i] = (pixman_fixed_t)f[k++];
+    nstops = (int)f[k++];
+    vrng_seed (&rng, (uint64_t)f[32] ^ 0x9a);
+    for (i = 0; i < 4; i++)
+    {
+	uint32_t c = (uint32_t)vrng_next (&rng);
+	unsigned a = (unsigned)f[k + 1];
+	stops[i].x = (pixman_fixed_t)f[k];
+	stops[i].color.alpha = a;
+	stops[i].color.red = ((c >> 16) & 0xff) * 0x101; stops[i].color.green = ((c >> 8) & 0xff) * 0x101;
+	stops[i].color.blue = (c & 0xff) * 0x101;
+	k += 2;
+    }
+    other = (int)f[k++];
+    dfmt = (pixman_format_code_t)f[k++]; dw = (int)f[k++]; dh = (int)f[k++];
+    gx = (int)f[k++]; gy = (int)f[k++]; dx = (int)f[k++]; dy = (int)f[k++]; w = (int)f[k++]; h = (int)f[k++];
+    seed = (uint64_t)f[k++];
+    memset (&s, 0, sizeof s); memset (&m, 0, sizeof m); memset (&t, 0, sizeof t);
+
+    if (gkind == 0)
+    {
+	pixman_point_fixed_t p1 = { g[0], g[1] }, p2 = { g[2], g[3] };
+	grad = pixman_image_create_linear_gradient (&p1, &p2, stops, nstops);
+    }
+    else if (gkind == 1)
+    {
+	pixman_point_fixed_t c1 = { g[0], g[1] }, c2 = { g[3], g[4] };
+	grad = pixman_image_create_radial_gradient (&c1, &c2, g[2], g[5], stops, nstops);
+    }
+    else
+    {
+	pixman_point_fixed_t c = { g[0], g[1] };
+	grad = pixman_image_create_conical_gradient (&c, g[2], stops, nstops);
+    }
+    if (!grad) return 3;
+    pixman_image_set_repeat (grad, (pixman_repeat_t)grep);
+
+    /* the gradient alone, SRC, onto a cleared a8r8g8b8 buffer of the destination's size, with the request's geometry
+     * (not part of the request under judgement: the hook is silent meanwhile) */
+    t.w = dw; t.h = dh; t.fmt = PIXMAN_a8r8g8b8; t.stride = dw * 4;
+    t.bits = calloc (1, t.stride * dh + 8);
+    t.img = pixman_image_create_bits (PIXMAN_a8r8g8b8, dw, dh, (uint32_t *)t.bits, t.stride);
+    saved = _pixman_verif_sink;
+    _pixman_verif_sink = NULL;
+    pixman_image_composite32 (PIXMAN_OP_SRC, grad, NULL, t.img, gx, gy, 0, 0, dx, dy, w, h);
+    _pixman_verif_sink = saved;
+    galpha = malloc (sizeof (int) * (w * h + 1));
+    for (y = dy; y < dy + h; y++)
+	for (x = dx; x < dx + w; x++)
+	    if (x >= 0 && y >= 0 && x < dw && y < dh)
+		galpha[ng++] = t.bits[y * t.stride + x * 4 + 3];       /* little endian: byte 3 = alpha */
+
+    pres = variant == 0 ? grad : t.img;
+    if (role == 0)
+    {
+	src = pres;
+	sx = variant == 0 ? gx : dx; sy = variant == 0 ? gy : dy;
+	sw = dw; sh = dh;
+	mkind = other;
+	if (mkind == 1 || mkind == 4)
+	{
+	    int mw = dw + 4, mh = dh + 2;
+	    vrng_t mr;
+	    vrng_seed (&mr, seed ^ 0x77);
+	    m.stride = ((mw * 8 + 31) / 32) * 4;
+	    m.bits = malloc (m.stride * mh);
+	    memset (m.bits, 0xff, m.stride * mh);
+	    if (mkind == 4)
+		for (y = 0; y < mh; y++)
+		    for (x = 0; x < mw; x++)
+			m.bits[y * m.stride + x] = (uint8_t)vrng_next (&mr);
+	    m.img = pixman_image_create_bits (PIXMAN_a8, mw, mh, (uint32_t *)m.bits, m.stride);
+	    mask = m.img;
+	}
+	else if (mkind == 2 || mkind == 5)
+	{
+	    static const uint16_t almost[] = { 0xfffe, 0xff80, 0xff00, 0xfeff };
+	    pixman_color_t white = { 0xffff, 0xffff, 0xffff, 0xffff };
+	    if (mkind == 5)
+		white.alpha = almost[seed % 4];
+	    mask = pixman_image_create_solid_fill (&white);
+	}
+    }
+    else
+    {
+	mask = pres;
+	mx = variant == 0 ? gx : dx; my = variant == 0 ? gy : dy;
+	skind = other == 10 ? 0 : other;
+	sfmt = other == 0 ? PIXMAN_x8r8g8b8 : PIXMAN_a8r8g8b8;
+	sx = 1; sy = 1;
+	if (skind == 1)
+	{
+	    pixman_color_t col;
+	    uint32_t c;
+	    vrng_seed (&rng, seed);
+	    c = content_pixel (&rng, 0, 0);
+	    col.alpha = 0xffff;
+	    col.red = ((c >> 16) & 0xff) * 0x101; col.green = ((c >> 8) & 0xff) * 0x101; col.blue = (c & 0xff) * 0x101;
+	    src = pixman_image_create_solid_fill (&col);
+	    sw = sh = 1;
+	}
+	else
+	{
+	    sw = dw + 6; sh = dh + 4;
+	    make_image (&s, sfmt, sw, sh, seed, 0, 0, skind == 4);
+	    src = s.img;
+	}
+    }
+
+    vt_begin ("Req");
+    vt_int ("pair", pair); vt_int ("variant", variant); vt_int ("cmp", cmp); vt_int ("op", op);
+    vt_int ("skind", skind); vt_int ("s_abits", role == 0 ? 8 : (skind == 1 ? 0 : PIXMAN_FORMAT_A (sfmt)));
+    vt_int ("sw", sw); vt_int ("sh", sh);
+    vt_int ("srep", 0); vt_bool ("simple", 1);
+    vt_int ("sfilt", PIXMAN_FILTER_NEAREST); vt_ints ("kernel", NULL, 0); vt_int ("tx", 0); vt_int ("ty", 0);
+    vt_int ("mkind", mkind); vt_int ("d_abits", PIXMAN_FORMAT_A (dfmt)); vt_int ("dw", dw); vt_int ("dh", dh);
+    vt_int ("sx", sx); vt_int ("sy", sy); vt_int ("dx", dx); vt_int ("dy", dy); vt_int ("w", w); vt_int ("h", h);
+    vt_int ("role", role); vt_int ("gkind", gkind); vt_int ("grep", grep); vt_int ("nstops", nstops);
+    vt_ints ("galpha", galpha, ng);
+    vt_end ();
+
+    make_image (&d, dfmt, dw, dh, seed ^ 0xd57, 0, 0, 0);
+    pixman_image_composite32 ((pixman_op_t)op, src, mask, d.img, sx, sy, mx, my, dx, dy, w, h);
+    vt_begin ("Res");
+    vt_int ("pair", pair); vt_int ("variant", variant); vt_int ("cmp", cmp);
+    log_pixels (&d);
+    vt_end ();
+
+    pixman_image_unref (grad);
+    pixman_image_unref (t.img);
+    if (s.img) pixman_image_unref (s.img);
+    else if (role == 1) pixman_image_unref (src);
+    if (role == 0 && mask) pixman_image_unref (mask);
+    pixman_image_unref (d.img);
+    free (s.bits); free (m.bits); free (d.bits); free (t.bits); free (galpha);
+    return 0;
+}
+
 int
 main (int argc, char **argv)
 {
@@ -172,6 +342,11 @@ main (int argc, char **argv)
 	pixman_image_t *src, *mask = NULL;
 	int simple, nk;
 	pixman_fixed_t kparams[16];
+	if (kind[0] == 'G')
+	{
+	    if (do_grad (in)) return 3;
+	    continue;
+	}
 	for (i = 0; i < n; i++)
 	    if (fscanf (in, "%lld", &f[i]) != 1) return 3;
 	pair = (int)f[k++]; variant = (int)f[k++]; cmp = (int)f[k++]; op = (int)f[k++];
